@@ -38,6 +38,13 @@ func (v *Vue) evaluate(ctx VueContext, nodes []*html.Node, depth int) ([]*html.N
 		case html.ElementNode:
 			tag := node.Data
 
+			// Skip v-else-if and v-else if they appear without v-if, or are left over from a
+			// chain whose branch was taken (they are handled as part of a chain) - whatever
+			// else the element carries (v-for, v-pre, <slot>, <template>)
+			if helpers.HasAttr(node, "v-else-if") || helpers.HasAttr(node, "v-else") {
+				continue
+			}
+
 			// Check for v-once early - skip if already rendered
 			// (an element that also carries v-for is checked per iteration, once v-for is expanded)
 			// (a member of a v-if chain is checked when - and if - its branch is taken)
@@ -100,12 +107,6 @@ func (v *Vue) evaluate(ctx VueContext, nodes []*html.Node, depth int) ([]*html.N
 				result = append(result, chainResult...)
 				// Skip past the v-else-if and v-else nodes that were part of this chain
 				i += skipCount
-				continue
-			}
-
-			// Skip v-else-if and v-else if they appear without v-if
-			// (they should be handled as part of a chain)
-			if helpers.HasAttr(node, "v-else-if") || helpers.HasAttr(node, "v-else") {
 				continue
 			}
 
